@@ -73,6 +73,12 @@ class ClassVarBetween(p.Expression):
     second: str
 
 
+@p.expr_dataclass(hash=False)
+class NoHashChild(p.Variable):
+    """decorated with hash=False (the decorator's other option): inherits the parent's __hash__, adds a field"""
+    extra: str
+
+
 @p.expr_dataclass()
 class CmpWithNote(p.Comparison):
     """decorated subclass of a node type that itself declares ClassVars after its fields"""
@@ -142,7 +148,7 @@ class LegacyTwin(LegacyRoot):
     mapper_method = "map_legacy_twin"
 
 
-USER_CLASSES = [DecChild, DecGrand, OwnInit, ClassVarBetween, CmpWithNote, PlainSub, LegacyOnDec, LegacyOnDecChild, LegacyRoot, LegacySub, LegacyTwin]
+USER_CLASSES = [DecChild, DecGrand, OwnInit, ClassVarBetween, CmpWithNote, NoHashChild, PlainSub, LegacyOnDec, LegacyOnDecChild, LegacyRoot, LegacySub, LegacyTwin]
 
 # }}}
 
